@@ -111,7 +111,8 @@ func proposePL(r *gen.Rand, t *ref.VersionTraits, cur *ref.Value, creators []str
 				e = ref.O()
 				c.Set("events", e)
 			}
-			typ := gen.Pick(r, []string{"m.room.topic", "m.room.message", "m.room.power_levels", "m.room.third_party_invite", "com.example.custom", "m.room.name"})
+			// (an event type may be spelt like one of the named thresholds: it is an entry of events all the same)
+			typ := gen.Pick(r, []string{"m.room.topic", "m.room.message", "m.room.power_levels", "m.room.third_party_invite", "com.example.custom", "m.room.name", "kick", "ban", "users_default", "state_default"})
 			if r.Chance(0.3) {
 				e.Del(typ)
 			} else {
@@ -246,6 +247,10 @@ func genAuthCase(r *gen.Rand, w *world) (*authCase, error) {
 		if r.Chance(0.12) {
 			// the property is there, and null: an invite that claims to come from a third-party invite and carries nothing
 			c.Set("third_party_invite", ref.NullV())
+		}
+		if r.Chance(0.2) {
+			// a profile member of the wrong type next to it (the content is then read by the lenient decoder)
+			c.Set(gen.Pick(r, []string{"displayname", "avatar_url", "reason"}), gen.Pick(r, []*ref.Value{ref.I(5), ref.A(), ref.O()}))
 		}
 		ac.ev, err = w.build("m.room.member", strp(target), sender, c, nil, "")
 	case "first-join":
